@@ -56,6 +56,7 @@ type Violation struct {
 	Model    map[string]uint64 `json:"-"`
 	Sig      string            `json:"signature"`
 	Replayed string            `json:"replayed,omitempty"`
+	Order    []int             `json:"client_start_order,omitempty"`
 }
 
 type InputVal struct {
@@ -113,6 +114,10 @@ type Exec struct {
 	preemptions  int
 	preemptBound int
 	objs         objTable
+	foot         map[interface{}]bool
+	sleep        map[*G]bool
+	clientOrder  []int
+	nclients     int
 	visible      int
 	nextObj      int
 	mon          *Monitor
@@ -366,8 +371,58 @@ func (w *WorkList) Close() {
 type pendOp struct {
 	kind    string
 	obj     interface{}
+	extra   []interface{} // further objects in the operation's footprint
+	ro      bool          // read-only on its objects (commutes with other reads)
 	enabled func() bool
 	yieldy  bool // switching away here is not a preemption (Gosched-like)
+}
+
+// objects lists the model objects the pending operation depends on.
+func (op *pendOp) objects() []interface{} {
+	var out []interface{}
+	switch o := op.obj.(type) {
+	case nil:
+	case *recvSet:
+		for _, c := range o.chans {
+			out = append(out, c)
+		}
+	case *Chan:
+		if o != nil {
+			out = append(out, o)
+		}
+	default:
+		out = append(out, o)
+	}
+	return append(out, op.extra...)
+}
+
+// touch records that the running transition accessed a model object.
+func (ex *Exec) touch(o interface{}, ro bool) {
+	if ex.foot == nil {
+		return
+	}
+	if prev, ok := ex.foot[o]; ok {
+		ex.foot[o] = prev && ro
+	} else {
+		ex.foot[o] = ro
+	}
+}
+
+func (ex *Exec) dependent(s *G) bool {
+	if s.pending == nil {
+		return true
+	}
+	for _, o := range s.pending.objects() {
+		if ro, ok := ex.foot[o]; ok && !(ro && s.pending.ro) {
+			return true
+		}
+	}
+	for _, o := range s.held {
+		if _, ok := ex.foot[o]; ok {
+			return true
+		}
+	}
+	return false
 }
 
 type G struct {
@@ -387,6 +442,7 @@ type G struct {
 	handed  bool
 	selIdx  int
 	parked  string
+	client  int
 }
 
 func alwaysEnabled() bool { return true }
@@ -418,6 +474,9 @@ func (g *G) visible(op *pendOp) {
 	if ex.killed {
 		panic(killSignal{})
 	}
+	for _, o := range op.objects() {
+		ex.touch(o, op.ro)
+	}
 	g.pending = nil
 }
 
@@ -425,7 +484,7 @@ func (ex *Exec) spawn(parent *G, fn value, args []value, lib bool, where string)
 	if len(ex.gs) >= ex.cfg.MaxGoroutines {
 		panic(abortPath{"budget", "goroutine bound"})
 	}
-	g := &G{id: len(ex.gs), ex: ex, resume: make(chan struct{}), lib: lib, where: where}
+	g := &G{id: len(ex.gs), ex: ex, resume: make(chan struct{}), lib: lib, where: where, client: -1}
 	if parent != nil {
 		if ex.mon != nil {
 			ex.mon.fork(parent, g)
@@ -526,13 +585,34 @@ func (ex *Exec) schedule() {
 			}
 			enabled = []*G{q}
 		}
-		next := ex.pick(enabled)
-		ex.cur = next
-		if ex.cfg.Race || true {
-			ex.clock++
+		var cands []*G
+		for _, g := range enabled {
+			if !ex.sleep[g] {
+				cands = append(cands, g)
+			}
 		}
+		if len(cands) == 0 {
+			// every enabled transition was already explored from an equivalent state
+			ex.res.Status = "pruned"
+			break
+		}
+		next := ex.pick(cands, enabled)
+		if next == nil {
+			ex.res.Status = "pruned"
+			break
+		}
+		ex.cur = next
+		if next.client >= 0 && next.pending != nil && next.pending.kind == "start" {
+			ex.clientOrder = append(ex.clientOrder, next.client)
+		}
+		ex.foot = map[interface{}]bool{}
 		next.resume <- struct{}{}
 		<-ex.yield
+		for s := range ex.sleep {
+			if s.done || ex.dependent(s) {
+				delete(ex.sleep, s)
+			}
+		}
 	}
 	// tear down
 	ex.killed = true
@@ -544,36 +624,50 @@ func (ex *Exec) schedule() {
 	}
 }
 
-func (ex *Exec) pick(enabled []*G) *G {
-	if len(enabled) == 1 {
-		return enabled[0]
-	}
-	curEnabled := false
+func (ex *Exec) pick(cands, enabled []*G) *G {
+	curEnabled, curCand := false, false
 	for _, g := range enabled {
 		if g == ex.cur {
 			curEnabled = true
 		}
 	}
-	yieldy := curEnabled && ex.cur.pending != nil && ex.cur.pending.yieldy
-	if curEnabled && !yieldy && ex.preemptions >= ex.preemptBound {
-		return ex.cur
-	}
-	// order: current first, then by id
-	cands := make([]*G, 0, len(enabled))
-	if curEnabled {
-		cands = append(cands, ex.cur)
-	}
-	for _, g := range enabled {
-		if g != ex.cur {
-			cands = append(cands, g)
+	for _, g := range cands {
+		if g == ex.cur {
+			curCand = true
 		}
 	}
-	i := ex.choose('s', len(cands))
-	ex.res.Sched++
-	if curEnabled && !yieldy && i != 0 {
+	yieldy := curEnabled && ex.cur.pending != nil && ex.cur.pending.yieldy
+	if curEnabled && !yieldy && ex.preemptions >= ex.preemptBound {
+		if !curCand {
+			return nil // must continue cur, but cur is asleep: redundant
+		}
+		return ex.cur
+	}
+	if len(cands) == 1 && len(enabled) == 1 {
+		return cands[0]
+	}
+	// order: current first, then by id
+	ord := make([]*G, 0, len(cands))
+	if curCand {
+		ord = append(ord, ex.cur)
+	}
+	for _, g := range cands {
+		if g != ex.cur {
+			ord = append(ord, g)
+		}
+	}
+	i := 0
+	if len(ord) > 1 {
+		i = ex.choose('s', len(ord))
+		ex.res.Sched++
+	}
+	for j := 0; j < i; j++ {
+		ex.sleep[ord[j]] = true
+	}
+	if curEnabled && !yieldy && ord[i] != ex.cur {
 		ex.preemptions++
 	}
-	return cands[i]
+	return ord[i]
 }
 
 func (ex *Exec) deadlock() {
@@ -672,6 +766,7 @@ func (ex *Exec) addViolation(kind, label, detail string, model map[string]uint64
 	vio.Decs = append([]Dec(nil), ex.trace...)
 	vio.DecStr = decString(vio.Decs)
 	vio.Notes = append([]string(nil), ex.notes...)
+	vio.Order = append([]int(nil), ex.clientOrder...)
 	if n := len(ex.schedTrace); n > 0 {
 		lo := 0
 		if n > 200 {
@@ -690,6 +785,7 @@ func (ex *Exec) Run() {
 	ex.preemptBound = ex.cfg.Preempt
 	ex.solver.Reset(ex.tc)
 	ex.known = map[int]bool{}
+	ex.sleep = map[*G]bool{}
 	ex.globals = map[*ssa.Global]*value{}
 	ex.yield = make(chan *G)
 	ex.fns = map[*ssa.Function]bool{}
@@ -819,7 +915,7 @@ func runEntry(prog *Program, entry *ssa.Function, cfg Config, fixed map[string]u
 					}
 				}
 				switch ex.res.Status {
-				case "ok", "violation", "infeasible", "done":
+				case "ok", "violation", "infeasible", "done", "pruned":
 				case "error":
 					er.Errors = append(er.Errors, ex.res.Detail)
 				default:
